@@ -332,6 +332,47 @@ theorem removeReadout_none (hm : Gen.invalidates .remove_readout = true) (n s) :
   have : removeReadout n s = removeReadout n (inval .remove_readout s) := by simp [removeReadout, inval_idem]
   rw [this]; exact removeReadout_toNone _ _ (inval_none hm s)
 
+/-! ### `rhsFromArgs2` with one environment is the shared core's `rhsFromArgs` -/
+
+theorem accDyn2_same (e : Env) (k : Name) : ∀ (l : List (Name × Fn)) (d : List (Name × Rat)),
+    accDyn2 e e k l d = accDyn e k l d := by
+  intro l
+  induction l with
+  | nil => intro d; rfl
+  | cons a rest ih =>
+    intro d
+    obtain ⟨flux, dv⟩ := a
+    simp only [accDyn2, accDyn]
+    cases dv.calc e with
+    | error x => rfl
+    | ok n =>
+      simp only [bind, Except.bind]
+      cases Env.get e flux with
+      | error x => rfl
+      | ok fv =>
+        simp only
+        cases accumulate d k (n * fv) with
+        | error x => rfl
+        | ok d' => exact ih d'
+
+theorem accDynAll2_same (e : Env) : ∀ (l : List (Name × List (Name × Fn))) (d : List (Name × Rat)),
+    accDynAll2 e e l d = accDynAll e l d := by
+  intro l
+  induction l with
+  | nil => intro d; rfl
+  | cons a rest ih =>
+    intro d
+    obtain ⟨k, st⟩ := a
+    simp only [accDynAll2, accDynAll, accDyn2_same]
+    cases accDyn e k st d with
+    | error x => rfl
+    | ok d' => exact ih d'
+
+theorem rhsFromArgs2_same (cache : Cache) (vn : List Name) (e : Env) :
+    rhsFromArgs2 cache vn e e = rhsFromArgs cache vn e := by
+  unfold rhsFromArgs2 rhsFromArgs
+  simp only [accDynAll2_same]
+
 /-! ### composites and plural forms -/
 
 def PresOK (f : State → State × Res) : Prop := ∀ s, CacheOK s → CacheOK (f s).1
